@@ -22,7 +22,7 @@ CONSTANTS StateReadLocks,      \* {"stateMu/r"} when state reads go through a ge
           CounterReadAtomic    \* TRUE when the counter is read with an atomic load
 
 \* goroutine kinds; "multi" kinds may run several instances at once
-Procs == {"dispatch", "timerIn", "timerOut", "sender", "app"}
+Procs == {"dispatch", "timerIn", "timerOut", "sender", "app", "connReader", "connWriter"}
 Multi == {"sender", "app"}
 
 A(proc, site, loc, kind, locks, atomic, scn) ==
@@ -74,6 +74,9 @@ Accesses == {
   A("app",      "OnChangeState / Stop: Clean", "EventHandlerPool.pool", "w", {"EventHandlerPool.mu"}, FALSE, "registration_vs_dispatch"),
   A("dispatch", "Trigger", "EventHandlerPool.pool", "r", {"EventHandlerPool.mu"}, FALSE, "registration_vs_dispatch"),
   A("timerIn",  "Trigger (Disconnect)", "EventHandlerPool.pool", "r", {"EventHandlerPool.mu"}, FALSE, "silent_peer_disconnect"),
+  \* ---- the connection: the reader and the writer goroutine share nothing but the context and the net.Conn (whose methods are safe) ----
+  A("connReader", "runReader: cancels the connection's context on a read error", "Conn.ctx", "w", {"context (internally synchronised)"}, FALSE, "connection_dies_under_load"),
+  A("connWriter", "Write: checks the context, cancels it on a write error", "Conn.ctx", "w", {"context (internally synchronised)"}, FALSE, "connection_dies_under_load"),
   \* (the callbacks of an event are called from a copy of the list taken under the lock: Stop may empty and refill the pool meanwhile)
   A("app",      "Stop: Clean, then OnChangeState(EventLogout)", "EventHandlerPool.pool", "w", {"EventHandlerPool.mu"}, FALSE, "stop_vs_logout_answer"),
   A("dispatch", "Trigger(EventLogout) for the peer's Logout crossing ours", "EventHandlerPool.pool", "r", {"EventHandlerPool.mu"}, FALSE, "stop_vs_logout_answer")
